@@ -426,6 +426,11 @@ bool femm::FemmProblem::addArcSegment(femm::CArcSegment &asegm, double tol)
             //	if (abs(nodelist[i]->CC()-nodelist[asegm.n1]->CC())<2.*dmin) d=2.*dmin;
 
 
+            // a point within the tolerance of one of the arc's end points is that end point, not a place to split the arc
+            // (same rule as in addSegment); splitting there recurses without end
+            if (abs(nodelist[i]->CC()-nodelist[asegm.n0]->CC())<dmin) d=2.*dmin;
+            if (abs(nodelist[i]->CC()-nodelist[asegm.n1]->CC())<dmin) d=2.*dmin;
+
             if (d<dmin){
 
                 CComplex a0,a1,a2;
